@@ -85,9 +85,9 @@ Engine/EvalCacheProofs.vos Engine/EvalCacheProofs.vok Engine/EvalCacheProofs.req
 Engine/Game.vo Engine/Game.glob Engine/Game.v.beautified Engine/Game.required_vo: Engine/Game.v 
 Engine/Game.vio: Engine/Game.v 
 Engine/Game.vos Engine/Game.vok Engine/Game.required_vos: Engine/Game.v 
-Engine/GameRefine.vo Engine/GameRefine.glob Engine/GameRefine.v.beautified Engine/GameRefine.required_vo: Engine/GameRefine.v Chess/Rules.vo Chess/History.vo Chess/HistoryKeys.vo Chess/ValidStep.vo Chess/GameInv.vo Engine/PositionRep.vo Engine/RepAbs.vo Engine/RepRefine.vo Engine/RepRefineLegal.vo Engine/KeyScratch.vo Engine/KeyScratchMove.vo Engine/KeyScratchInit.vo Engine/HistoryRefine.vo Engine/PolyglotProofs.vo Engine/RepProofs.vo Engine/RepRoundTrip.vo Engine/RepRoundTripLegal.vo
-Engine/GameRefine.vio: Engine/GameRefine.v Chess/Rules.vio Chess/History.vio Chess/HistoryKeys.vio Chess/ValidStep.vio Chess/GameInv.vio Engine/PositionRep.vio Engine/RepAbs.vio Engine/RepRefine.vio Engine/RepRefineLegal.vio Engine/KeyScratch.vio Engine/KeyScratchMove.vio Engine/KeyScratchInit.vio Engine/HistoryRefine.vio Engine/PolyglotProofs.vio Engine/RepProofs.vio Engine/RepRoundTrip.vio Engine/RepRoundTripLegal.vio
-Engine/GameRefine.vos Engine/GameRefine.vok Engine/GameRefine.required_vos: Engine/GameRefine.v Chess/Rules.vos Chess/History.vos Chess/HistoryKeys.vos Chess/ValidStep.vos Chess/GameInv.vos Engine/PositionRep.vos Engine/RepAbs.vos Engine/RepRefine.vos Engine/RepRefineLegal.vos Engine/KeyScratch.vos Engine/KeyScratchMove.vos Engine/KeyScratchInit.vos Engine/HistoryRefine.vos Engine/PolyglotProofs.vos Engine/RepProofs.vos Engine/RepRoundTrip.vos Engine/RepRoundTripLegal.vos
+Engine/GameRefine.vo Engine/GameRefine.glob Engine/GameRefine.v.beautified Engine/GameRefine.required_vo: Engine/GameRefine.v Chess/Rules.vo Chess/History.vo Chess/HistoryKeys.vo Chess/ValidStep.vo Chess/GameInv.vo Engine/PositionRep.vo Engine/RepAbs.vo Engine/RepRefine.vo Engine/RepRefineLegal.vo Engine/KeyScratch.vo Engine/KeyScratchMove.vo Engine/KeyScratchInit.vo Engine/HistoryRefine.vo Engine/PolyglotProofs.vo Engine/RepProofs.vo Engine/RepRoundTrip.vo Engine/RepRoundTripLegal.vo Engine/Material.vo
+Engine/GameRefine.vio: Engine/GameRefine.v Chess/Rules.vio Chess/History.vio Chess/HistoryKeys.vio Chess/ValidStep.vio Chess/GameInv.vio Engine/PositionRep.vio Engine/RepAbs.vio Engine/RepRefine.vio Engine/RepRefineLegal.vio Engine/KeyScratch.vio Engine/KeyScratchMove.vio Engine/KeyScratchInit.vio Engine/HistoryRefine.vio Engine/PolyglotProofs.vio Engine/RepProofs.vio Engine/RepRoundTrip.vio Engine/RepRoundTripLegal.vio Engine/Material.vio
+Engine/GameRefine.vos Engine/GameRefine.vok Engine/GameRefine.required_vos: Engine/GameRefine.v Chess/Rules.vos Chess/History.vos Chess/HistoryKeys.vos Chess/ValidStep.vos Chess/GameInv.vos Engine/PositionRep.vos Engine/RepAbs.vos Engine/RepRefine.vos Engine/RepRefineLegal.vos Engine/KeyScratch.vos Engine/KeyScratchMove.vos Engine/KeyScratchInit.vos Engine/HistoryRefine.vos Engine/PolyglotProofs.vos Engine/RepProofs.vos Engine/RepRoundTrip.vos Engine/RepRoundTripLegal.vos Engine/Material.vos
 Engine/GoParse.vo Engine/GoParse.glob Engine/GoParse.v.beautified Engine/GoParse.required_vo: Engine/GoParse.v 
 Engine/GoParse.vio: Engine/GoParse.v 
 Engine/GoParse.vos Engine/GoParse.vok Engine/GoParse.required_vos: Engine/GoParse.v 
@@ -121,6 +121,9 @@ Engine/MagicProofs.vos Engine/MagicProofs.vok Engine/MagicProofs.required_vos: E
 Engine/MateScore.vo Engine/MateScore.glob Engine/MateScore.v.beautified Engine/MateScore.required_vo: Engine/MateScore.v Gen/Consts.vo Engine/SearchDriver.vo
 Engine/MateScore.vio: Engine/MateScore.v Gen/Consts.vio Engine/SearchDriver.vio
 Engine/MateScore.vos Engine/MateScore.vok Engine/MateScore.required_vos: Engine/MateScore.v Gen/Consts.vos Engine/SearchDriver.vos
+Engine/Material.vo Engine/Material.glob Engine/Material.v.beautified Engine/Material.required_vo: Engine/Material.v Chess/Rules.vo Chess/RulesFacts.vo Chess/History.vo Engine/PositionRep.vo Engine/RepAbs.vo Engine/RepRefine.vo Engine/RepRefineLegal.vo Engine/KeyScratch.vo Engine/KeyScratchMove.vo
+Engine/Material.vio: Engine/Material.v Chess/Rules.vio Chess/RulesFacts.vio Chess/History.vio Engine/PositionRep.vio Engine/RepAbs.vio Engine/RepRefine.vio Engine/RepRefineLegal.vio Engine/KeyScratch.vio Engine/KeyScratchMove.vio
+Engine/Material.vos Engine/Material.vok Engine/Material.required_vos: Engine/Material.v Chess/Rules.vos Chess/RulesFacts.vos Chess/History.vos Engine/PositionRep.vos Engine/RepAbs.vos Engine/RepRefine.vos Engine/RepRefineLegal.vos Engine/KeyScratch.vos Engine/KeyScratchMove.vos
 Engine/Polyglot.vo Engine/Polyglot.glob Engine/Polyglot.v.beautified Engine/Polyglot.required_vo: Engine/Polyglot.v Engine/RepAbs.vo Engine/Magic.vo
 Engine/Polyglot.vio: Engine/Polyglot.v Engine/RepAbs.vio Engine/Magic.vio
 Engine/Polyglot.vos Engine/Polyglot.vok Engine/Polyglot.required_vos: Engine/Polyglot.v Engine/RepAbs.vos Engine/Magic.vos
@@ -289,9 +292,9 @@ Props/Properties_C05.vos Props/Properties_C05.vok Props/Properties_C05.required_
 Props/Properties_C06.vo Props/Properties_C06.glob Props/Properties_C06.v.beautified Props/Properties_C06.required_vo: Props/Properties_C06.v Gen/Layout.vo Gen/LayoutAst.vo Engine/StopProtocol.vo Engine/StopProofs.vo
 Props/Properties_C06.vio: Props/Properties_C06.v Gen/Layout.vio Gen/LayoutAst.vio Engine/StopProtocol.vio Engine/StopProofs.vio
 Props/Properties_C06.vos Props/Properties_C06.vok Props/Properties_C06.required_vos: Props/Properties_C06.v Gen/Layout.vos Gen/LayoutAst.vos Engine/StopProtocol.vos Engine/StopProofs.vos
-Props/Properties_C07.vo Props/Properties_C07.glob Props/Properties_C07.v.beautified Props/Properties_C07.required_vo: Props/Properties_C07.v Chess/Rules.vo Chess/History.vo Chess/RulesFacts.vo Chess/HistoryKeys.vo Engine/PositionRep.vo Engine/RepAbs.vo Engine/RepRefineLegal.vo Engine/KeyScratchInit.vo Engine/HistoryRefine.vo Chess/ValidStep.vo Chess/GameInv.vo Engine/GameRefine.vo
-Props/Properties_C07.vio: Props/Properties_C07.v Chess/Rules.vio Chess/History.vio Chess/RulesFacts.vio Chess/HistoryKeys.vio Engine/PositionRep.vio Engine/RepAbs.vio Engine/RepRefineLegal.vio Engine/KeyScratchInit.vio Engine/HistoryRefine.vio Chess/ValidStep.vio Chess/GameInv.vio Engine/GameRefine.vio
-Props/Properties_C07.vos Props/Properties_C07.vok Props/Properties_C07.required_vos: Props/Properties_C07.v Chess/Rules.vos Chess/History.vos Chess/RulesFacts.vos Chess/HistoryKeys.vos Engine/PositionRep.vos Engine/RepAbs.vos Engine/RepRefineLegal.vos Engine/KeyScratchInit.vos Engine/HistoryRefine.vos Chess/ValidStep.vos Chess/GameInv.vos Engine/GameRefine.vos
+Props/Properties_C07.vo Props/Properties_C07.glob Props/Properties_C07.v.beautified Props/Properties_C07.required_vo: Props/Properties_C07.v Chess/Rules.vo Chess/History.vo Chess/RulesFacts.vo Chess/HistoryKeys.vo Engine/PositionRep.vo Engine/RepAbs.vo Engine/RepRefineLegal.vo Engine/KeyScratchInit.vo Engine/HistoryRefine.vo Chess/ValidStep.vo Chess/GameInv.vo Engine/GameRefine.vo Engine/KeyScratch.vo Engine/Material.vo
+Props/Properties_C07.vio: Props/Properties_C07.v Chess/Rules.vio Chess/History.vio Chess/RulesFacts.vio Chess/HistoryKeys.vio Engine/PositionRep.vio Engine/RepAbs.vio Engine/RepRefineLegal.vio Engine/KeyScratchInit.vio Engine/HistoryRefine.vio Chess/ValidStep.vio Chess/GameInv.vio Engine/GameRefine.vio Engine/KeyScratch.vio Engine/Material.vio
+Props/Properties_C07.vos Props/Properties_C07.vok Props/Properties_C07.required_vos: Props/Properties_C07.v Chess/Rules.vos Chess/History.vos Chess/RulesFacts.vos Chess/HistoryKeys.vos Engine/PositionRep.vos Engine/RepAbs.vos Engine/RepRefineLegal.vos Engine/KeyScratchInit.vos Engine/HistoryRefine.vos Chess/ValidStep.vos Chess/GameInv.vos Engine/GameRefine.vos Engine/KeyScratch.vos Engine/Material.vos
 Props/Properties_C08.vo Props/Properties_C08.glob Props/Properties_C08.v.beautified Props/Properties_C08.required_vo: Props/Properties_C08.v Gen/Consts.vo Engine/SearchDriver.vo Engine/MateScore.vo
 Props/Properties_C08.vio: Props/Properties_C08.v Gen/Consts.vio Engine/SearchDriver.vio Engine/MateScore.vio
 Props/Properties_C08.vos Props/Properties_C08.vok Props/Properties_C08.required_vos: Props/Properties_C08.v Gen/Consts.vos Engine/SearchDriver.vos Engine/MateScore.vos
